@@ -187,6 +187,32 @@ def obj_layer(layer, probes=False):
     return "{" + ", ".join(parts) + "}"
 
 
+def obj_chain_shared(chain):
+    """like obj_chain style 0, but every distinct layer literal is bound once to a local variable and the chain is
+    composed from the variables: equal layers are then one and the same object value used at several positions
+    (a mixin applied twice). Returns None when no layer repeats."""
+    lits = {}
+    parts = []
+    for layer in chain:
+        if layer["omit"]:
+            k = layer["k"]
+            taken, cnt = [], 0
+            while cnt < k:
+                e = parts.pop()
+                taken.insert(0, e)
+                cnt += e[1]
+            assert cnt == k
+            parts.append((f"std.objectRemoveKey({join_parts(taken, 0)}, '{layer['f']}')", k + 1, False))
+        else:
+            src = obj_layer(layer, False)
+            name = lits.setdefault(src, f"m{len(lits)}")
+            parts.append((name, 1, False))
+    if len(lits) == sum(1 for l in chain if not l["omit"]):
+        return None
+    binds = ", ".join(f"{n} = {src}" for src, n in lits.items())
+    return f"(local {binds}; {join_parts(parts, 0)})"
+
+
 def obj_chain(chain, style=0, probes=False):
     """chain of Objects.tla -> Jsonnet expression. style 0: `a + b`, style 1: `a { ... }` where possible."""
     parts = []  # (expr, nlayers, is_literal)
